@@ -709,8 +709,13 @@ def load_vi_bindings() -> KeyBindingsBase:
         )
         after = "\n".join(lines[buffer.document.cursor_position_row + event.arg :])
 
-        # Set new text.
-        if before and after:
+        # Set new text. (Test the line lists, not the joined strings: a run
+        # of empty lines joins to an empty string but still needs its
+        # separator.)
+        if (
+            lines[: buffer.document.cursor_position_row]
+            and lines[buffer.document.cursor_position_row + event.arg :]
+        ):
             before = before + "\n"
 
         # Set text and cursor position.
